@@ -117,7 +117,7 @@ func runOnce(job *Job, ch vs.Chooser, trace bool) (*vs.Result, *Outcome) {
 		out, res = c03Run(job.C03, cc, trace)
 	case "C14conc", "C17open":
 		out, res = c14Run(job.C14, cc, trace)
-	case "C14ctl":
+	case "C14ctl", "C18rest":
 		out, res = c14CtlRun(job.C14Ctl, cc, trace)
 	case "C09conc":
 		out, res = c09Run(job.C09, cc, trace)
